@@ -113,6 +113,15 @@ def aggOp (w tv : Nat) (rows : List (List Nat)) (cols : Nat) : String :=
     val (aggregateValues plainAlg [] w ((column rows c).map (bitsOf tv))))
   s!"{w} {showNatList vs} ok"
 
+/-- cross-shard merge at the leader (`FinalizerContext::finalize`, `Histogram::merge`): the per-shard histograms are folded in
+shard order with the model's `integerSatAdd` circuit per bucket (width `w`). -/
+def mergeOp (w : Nat) (rows : List (List Nat)) (cols : Nat) : String :=
+  let vs := (List.range cols).map (fun c =>
+    match column rows c with
+    | [] => 0
+    | v :: rest => rest.foldl (fun acc x => val (integerSatAdd plainAlg [] (bitsOf w acc) (bitsOf w x))) (v % 2 ^ w))
+  s!"{w} {showNatList vs} ok"
+
 def parseRows (s : String) : Option (List (List Nat)) :=
   if s = "-" then some [] else (s.splitOn "/").mapM parseNatList
 
@@ -171,6 +180,8 @@ def handle (toks : List String) : Option String :=
       if op ∈ ["c07.add", "c07.satadd", "c07.gt", "c07.mulint", "c07.or", "c07.and"] then some <| (do
         pure (vecOp (op.drop 4).toString (← n.toNat?) (← m.toNat?) (← parseNatList xs) (← parseNatList ys))).getD "bad-request"
       else none
+  | ["c07.merge", _mode, _s, rows] => some <| (do
+      pure (mergeOp 8 (← parseRows rows) 16)).getD "bad-request"
   | ["c07.agg", _mode, b, w, tv, rows] => some <| (do
       let rows ← parseRows rows
       let b ← b.toNat?
@@ -344,6 +355,19 @@ def oracle (toks : List String) (impl : String) : Option String :=
       if op ∈ ["c07.add", "c07.satadd", "c07.gt", "c07.mulint", "c07.or", "c07.and"] then verdict (do
         oracleVec (op.drop 4).toString (← n.toNat?) (← m.toNat?) (← natsOf xs) (← natsOf ys) impl)
       else none
+  | ["c07.merge", _mode, sc, rows] => verdict (do
+      let rows ← parseRows rows
+      let sc ← sc.toNat?
+      if rows.length ≠ sc then pure (some "one row per shard expected") else
+      match impl.splitOn " " with
+      | [len, vals, fl] =>
+        let vals ← natsOf vals
+        if vals.length ≠ 16 ∨ len.toNat? ≠ some 8 then pure (some "wrong output shape") else
+        pure <| (flagOk [fl]).orElse fun _ => checkAll 16 fun c =>
+          let s := (column rows c).foldl (fun a v => a + v % 256) 0
+          let e := min s 255
+          if vals.getD c 0 == e then none else some s!"merged bucket {c}: per-shard values {column rows c} got {vals.getD c 0}, expected min(sum, 255) = {e}"
+      | _ => pure (some s!"unexpected {impl}"))
   | ["c07.agg", _mode, b, w, tv, rows] => verdict (do
       let rows ← parseRows rows
       let b ← b.toNat?
